@@ -383,8 +383,53 @@ Record pdoc := {
 Definition group_kind (g : list tok) : option str :=
   match g with TCtrl n _ :: _ => Some n | _ => None end.
 
+(* assembled documents repeat, after a bare \page, a colour table, header / footer groups and the page
+   geometry of the next input: strip those, keeping the items *)
+Fixpoint strip_ext (fuel : nat) (es : list elem) (after_tiny : bool) : list elem :=
+  match fuel with
+  | O => es
+  | S f =>
+    match es with
+    | [] => []
+    | EGroup g :: r =>
+      match g with
+      | TCtrl n None :: _ =>
+        if str_eqb n (s2l "colortbl") || str_eqb n (s2l "header") || str_eqb n (s2l "footer")
+        then strip_ext f r false else EGroup g :: strip_ext f r (is_tiny_par g)
+      | _ => EGroup g :: strip_ext f r false
+      end
+    | ETok (TCtrl n p) :: r =>
+      if str_eqb n (s2l "paperw") && negb after_tiny then
+        match parse_geom es with
+        | Some (_, _, rest) => strip_ext f rest false
+        | None => ETok (TCtrl n p) :: strip_ext f r false
+        end
+      else ETok (TCtrl n p) :: strip_ext f r false
+    | e :: r => e :: strip_ext f r false
+    end
+  end.
+
+(* the geometries an assembled document restates for its later inputs (not those of page-break blocks) *)
+Fixpoint ext_geoms (fuel : nat) (es : list elem) (after_tiny : bool) : list (geom * bool) :=
+  match fuel with
+  | O => []
+  | S f =>
+    match es with
+    | [] => []
+    | EGroup g :: r => ext_geoms f r (is_tiny_par g)
+    | ETok (TCtrl n p) :: r =>
+      if str_eqb n (s2l "paperw") && negb after_tiny then
+        match parse_geom es with
+        | Some (g, ls, rest) => (g, ls) :: ext_geoms f rest false
+        | None => ext_geoms f r false
+        end
+      else ext_geoms f r false
+    | _ :: r => ext_geoms f r false
+    end
+  end.
+
 (* optional preamble groups in order: colortbl, header, footer *)
-Definition read_doc (ts : list tok) : option pdoc :=
+Definition read_doc_gen (prep : list elem -> list elem) (ts : list tok) : option pdoc :=
   match ts with
   | TOpen :: r0 =>
     match take_group r0 0 [] with
@@ -425,7 +470,7 @@ Definition read_doc (ts : list tok) : option pdoc :=
                     | _, None, _, _ => None
                     | _, _, None, _ => None
                     | _, Some h, Some f, Some (gm, ls, rest) =>
-                      match parse_items (S (length rest)) rest with
+                      match parse_items (S (length rest)) (prep rest) with
                       | Some its =>
                         Some {| pd_fonts := fonts;
                                 pd_colors := match colors with Some (Some l) => Some l | _ => None end;
@@ -451,6 +496,10 @@ Definition read_doc (ts : list tok) : option pdoc :=
     end
   | _ => None
   end.
+
+Definition read_doc (ts : list tok) : option pdoc := read_doc_gen (fun es => es) ts.
+Definition read_assembled (ts : list tok) : option pdoc :=
+  read_doc_gen (fun es => strip_ext (S (length es)) es false) ts.
 
 (* pages: split the item list at page breaks *)
 Fixpoint split_pages (its : list item) (cur : list item) : list (list item) :=
